@@ -123,8 +123,10 @@ def deferred_kill_wiring(chk: Check) -> None:
     chk.ob('PROV-deferred-kill', kill, is_kill_int, 'the pending kill is built from KillInterruption(<kill text>)', node=setc[0],
            kind='kill-interruption-from-text')
     set_node = cfg.nodes_containing(setc[0])[0]
+    from ..rules import setter_returns_installed_action
+    via_return = setter_returns_installed_action(prog)   # ``self._killing = self._set_interrupt_action_from_exception(e)`` where the setter returns what it installed
     alias = [n for n in cfg.nodes if n.kind == 'stmt' and isinstance(n.ast, ast.Assign) and norm(n.ast.targets[0]) == KILLING
-             and norm(strip_cast(n.ast.value)) == IA]
+             and (norm(strip_cast(n.ast.value)) == IA or (via_return and strip_cast(n.ast.value) is setc[0]))]
     ok_alias = bool(alias) and all(cfg.must_pass(set_node, [cfg.exit], lambda n: n in alias, edge_ok=no_exc) for _ in [0])
     chk.ob('PROV-deferred-kill', kill, ok_alias, 'after installing the kill action, _killing is set to that same object on every path',
            node=alias[0].ast if alias else setc[0], kind='killing-aliases-action')
@@ -230,7 +232,8 @@ def end_of_step_dispatch(chk: Check) -> None:
     def terminated_return(n) -> bool:
         return n.kind == 'return' and ('T', 'self._state.is_terminal()') in ff.at(n)
 
-    ok = cfg.must_pass(ex, [cfg.exit], lambda n: dispatch(n) or terminated_return(n), edge_ok=no_exc)
+    # (the "terminated meanwhile" way out: a return, or the empty branch an inlined helper's early return becomes -- any node that knows the process is terminal)
+    ok = cfg.must_pass(ex, [cfg.exit], lambda n: dispatch(n) or terminated_return(n) or ('T', 'self._state.is_terminal()') in ff.at(n), edge_ok=no_exc)
     chk.ob('DOM-end-of-step', step, ok, 'every non-raising path from the step to the end of step() performs the dispatch '
            '(or returns because the process terminated meanwhile)', kind='dispatch-on-all-paths')
     # at most one dispatch per path: from a dispatch node no other dispatch node is reachable
@@ -371,7 +374,8 @@ def _followed_by_terminal_transition(chk, f, cfg, ff, n, call) -> bool:
                    for c in _calls(m))
 
     def terminated_return(m) -> bool:
-        return m.kind == 'return' and ('T', 'self._state.is_terminal()') in ff.at(m)
+        # (a return, or the empty branch an inlined helper's early return becomes: a node that knows the process is terminal)
+        return ('T', 'self._state.is_terminal()') in ff.at(m)
 
     return cfg.must_pass(n, [cfg.exit], lambda m: enters(m) or terminated_return(m), edge_ok=no_exc)
 
